@@ -1,6 +1,10 @@
 (** Property C05 — abstraction is free: naming, inlining, wrapping, reordering keep the
     output.
 
+    Proved here, on the evaluator model (tied to eval.rs on every run): consistently renaming
+    the bound identifiers of a whole program (parameters and rec binders, any injective
+    renaming) changes nothing in the evaluation: same relations, same reference table, same
+    error or panic ([C05_alpha_evaluation]).
     Proved here (partial), for every syntax tree and environment: parenthesising a
     sub-expression and renaming identifiers by any injective renaming leave the binding
     relation computed by name resolution unchanged (hence acceptance by the resolver and the
@@ -10,6 +14,7 @@
     rewrite engine of the check (monitor O05) on generated programs; two annotation-related
     exceptions are recorded as known findings (K13, K15). *)
 From Oal Require Import Resolve ResolveProofs RewriteProofs.
+From Oal Require Eval EvalProofs.
 
 Theorem C05_paren_resolution_partial : forall en t, lex en (RNode [t]) = lex en t.
 Proof. exact paren_resolution. Qed.
@@ -25,6 +30,27 @@ Theorem C05_alpha_walk_partial : forall f, (forall a b, f a = f b -> a = b) -> f
   match lex en t with inl ds => inl (ren_env f en, ds) | inr e => inr e end.
 Proof. exact alpha_walk. Qed.
 Print Assumptions C05_alpha_walk_partial.
+
+(** renaming binders: the evaluation of the renamed program is the evaluation of the program *)
+Theorem C05_alpha_evaluation : forall rho : N -> N, (forall x y, rho x = rho y -> x = y) ->
+  forall P n rs,
+  Eval.eval_program false (EvalProofs.ren_prog rho P) n (map (EvalProofs.ren rho) rs) = Eval.eval_program false P n rs.
+Proof. exact EvalProofs.eval_program_rename. Qed.
+Print Assumptions C05_alpha_evaluation.
+
+Theorem C05_alpha_evaluation_state : forall rho : N -> N, (forall x y, rho x = rho y -> x = y) ->
+  forall P n s e a,
+  Eval.eval false (EvalProofs.ren_prog rho P) n (EvalProofs.rst rho s) (EvalProofs.ren rho e) a =
+  EvalProofs.rres rho (Eval.eval false P n s e a).
+Proof. exact EvalProofs.eval_rename. Qed.
+Print Assumptions C05_alpha_evaluation_state.
+
+Example C05_renaming_changes_the_tree :
+  let rho := fun x : N => if N.eqb x 7%N then 8%N else if N.eqb x 8%N then 7%N else x in
+  EvalProofs.ren_prog rho EvalProofs.ex_P <> EvalProofs.ex_P /\
+  Eval.eval_program false (EvalProofs.ren_prog rho EvalProofs.ex_P) 50 (map (EvalProofs.ren rho) EvalProofs.ex_rs) =
+  Eval.eval_program false EvalProofs.ex_P 50 EvalProofs.ex_rs.
+Proof. exact EvalProofs.ex_rename_changes_tree. Qed.
 
 Example C05_injective_renaming_exists : forall a b : N, N.succ a = N.succ b -> a = b.
 Proof. exact N.succ_inj. Qed.
